@@ -170,6 +170,18 @@ def run(ctx):
                 cid = "named-%d-spelling%d" % (j, k)
                 slash[cid] = s_
                 loads.append({"id": cid, "ops": [{"op": "load", "dir": d}, {"op": "exists", "dir": d}, {"op": "release_all"}]})
+            # ... reached through symbolic links: the directory itself is a link; the directory is real and the
+            # database files (1.x) or the Database2 folder (2.x) are links to where the library really lives
+            ln = os.path.join(root, "link-to-%d" % j)
+            os.symlink(t, ln)
+            ln2 = os.path.join(root, "dir-of-links-%d" % j)
+            os.makedirs(ln2)
+            for name in os.listdir(t):
+                os.symlink(os.path.join(t, name), os.path.join(ln2, name))
+            for k, d in enumerate((ln, ln + "/", ln2), start=5):
+                cid = "named-%d-spelling%d" % (j, k)
+                slash[cid] = s_
+                loads.append({"id": cid, "ops": [{"op": "load", "dir": d}, {"op": "exists", "dir": d}, {"op": "release_all"}]})
         # the same libraries under directory names with characters special to URIs, SQL or shells
         for j, s_ in enumerate(TEMPLATES):
             for k in range(1, len(DIR_NAME_POOL)):
